@@ -140,6 +140,19 @@ def run_case(spec):
                 viol.append(V(name + '.__init__', 'alias_not_mapped', '%s(%s=%r): %s is %r' % (name, alias, val, target,
                                                                                               est.get_params().get(target)), [alias]))
             sigs.add((name, 'alias', alias))
+            # the alias must not stay "live": changing the replacement afterwards and cloning must work and carry the new value
+            try:
+                other = val * 2 if isinstance(val, int) else 0.5
+                est.set_params(**{target: other})
+                with warnings.catch_warnings():
+                    warnings.simplefilter('ignore')
+                    cl = clone(est)
+                if cl.get_params().get(target) != other:
+                    viol.append(V(name + '.clone', 'alias_overrides_replacement', '%s(%s=%r).set_params(%s=%r) then clone: the clone holds %s=%r'
+                                  % (name, alias, val, target, other, target, cl.get_params().get(target)), [alias]))
+            except Exception as e:
+                viol.append(V(name + '.clone', 'alias_overrides_replacement', '%s(%s=%r).set_params(%s=...) then clone raised %s: %s'
+                              % (name, alias, val, target, type(e).__name__, str(e)[:100]), [alias]))
         return dict(evals=evals, sigs=sigs, viol=viol,
                     sample={'estimator': name, 'parameters': [p for p, _ in ctor_params(name)]})
 
@@ -281,11 +294,19 @@ def run_case(spec):
                           'fitted one after the other on the same data, give different models (the clones share the random stream)', ['random_state_instance']))
     cfgs = [('base', {})] + [(lab, o) for lab, o in zoo.option_configs(name, ds, 'quick')
                              if any(isinstance(v, np.ndarray) for v in o.values())][:2]
+    if name == 'LFDA':
+        cfgs = cfgs + [('k=10 (larger than n_features)', {'k': 10}), ('k=n_features', {'k': ds.d})]
     for clab, over in cfgs:
         pristine = copy.deepcopy(over)
         est = zoo.make(name, ds, **over)
         c0 = clone(est)
+        before = dict(est.get_params())
         est.fit(*zoo.train_args(name, ds))
+        after = est.get_params()
+        for k_ in before:
+            if after[k_] is not before[k_] and not same_value(after[k_], before[k_]):
+                viol.append(V(name + '.fit', 'param_modified_by_fit', 'fit replaced the value of the constructor parameter %s (%r -> %r) [%s]'
+                              % (k_, before[k_], after[k_], clab), [k_, clab]))
         c1 = clone(est)                      # cloned AFTER the fit: must still carry the original values
         for k, v in pristine.items():
             if not same_value(est.get_params()[k], v):
